@@ -124,6 +124,10 @@ func (c *stepCtx) runStep(k int, st map[string]interface{}) []string {
 		return c.stepPar(k, st)
 	case "gated":
 		return c.stepGated(k, st)
+	case "scale":
+		return []string{c.stepScale(st)}
+	case "repeat":
+		return []string{c.stepRepeat(st)}
 	case "legacy":
 		return []string{c.stepLegacy(st)}
 	case "allocs":
